@@ -1,0 +1,150 @@
+//go:build verif
+
+// Machine-checked contracts for package l4proxy (comment-only; read by /verif/gvc).
+
+package l4proxy
+
+// Availability (C10/C11): an upstream is healthy iff none of its peers is marked unhealthy and,
+// with passive health checks, none has reached max_fails; it is full iff max_connections is set
+// and some peer has reached it. The definitions are opaque to the selection policies: they see
+// only that available() decides exactly `uavail`.
+//@ opaque pred validpeers(u *Upstream) = u != nil && forall i int :: 0 <= i && i < len(u.peers) ==> u.peers[i] != nil
+//@ opaque pred uhealthy(u *Upstream) = (forall i int :: 0 <= i && i < len(u.peers) ==> u.peers[i].unhealthy == 0)
+//@   && (u.healthCheckPolicy != nil && u.healthCheckPolicy.MaxFails > 0 ==> forall i int :: 0 <= i && i < len(u.peers) ==> u.peers[i].fails < int32(u.healthCheckPolicy.MaxFails))
+//@ opaque pred ufull(u *Upstream) = u.MaxConnections != 0 && exists i int :: 0 <= i && i < len(u.peers) && int(u.peers[i].numConns) >= u.MaxConnections
+//@ pred uavail(u *Upstream) = uhealthy(u) && !ufull(u)
+//@ pred validpool(pool UpstreamPool) = forall i int :: 0 <= i && i < len(pool) ==> pool[i] != nil && validpeers(pool[i])
+//@ pred member(pool UpstreamPool, u *Upstream) = exists i int :: 0 <= i && i < len(pool) && pool[i] == u
+//@ pred noneavail(pool UpstreamPool) = forall i int :: 0 <= i && i < len(pool) ==> !uavail(pool[i])
+
+//@ func (p *peer) healthy() bool
+//@ safety C10
+//@ assigns[C10] nothing
+//@ ensures[C10] result == (p.unhealthy == 0)
+
+//@ func (p *peer) getNumConns() int
+//@ safety C10
+//@ assigns[C10] nothing
+//@ ensures[C10] result == int(p.numConns)
+
+//@ func (u *Upstream) healthy() bool
+//@ requires validpeers(u)
+//@ reveal validpeers, uhealthy
+//@ safety C10
+//@ assigns[C10] nothing
+//@ loop 0 invariant forall i int :: 0 <= i && i <= rangeindex ==> u.peers[i].unhealthy == 0
+//@ loop 1 invariant forall i int :: 0 <= i && i <= rangeindex ==> u.peers[i].fails < int32(u.healthCheckPolicy.MaxFails)
+//@ loop 1 invariant forall i int :: 0 <= i && i < len(u.peers) ==> u.peers[i].unhealthy == 0
+//@ ensures[C10] result == uhealthy(u)
+
+//@ func (u *Upstream) full() bool
+//@ requires validpeers(u)
+//@ reveal validpeers, ufull
+//@ safety C10
+//@ assigns[C10] nothing
+//@ invariant forall i int :: 0 <= i && i <= rangeindex ==> int(u.peers[i].numConns) < u.MaxConnections
+//@ ensures[C10] result == ufull(u)
+
+//@ func (u *Upstream) available() bool
+//@ requires validpeers(u)
+//@ safety C10
+//@ assigns[C10] nothing
+//@ ensures[C10] result == uavail(u)
+
+//@ func (u *Upstream) totalConns() int
+//@ requires validpeers(u)
+//@ reveal validpeers
+//@ pure
+//@ safety C10
+//@ ensures[assumed] result >= 0
+
+//@ func (sel *FirstSelection) Select(pool UpstreamPool, cx *layer4.Connection) *Upstream
+//@ requires validpool(pool)
+//@ safety C10
+//@ assigns[C10] nothing
+//@ invariant forall j int :: 0 <= j && j <= rangeindex ==> !uavail(pool[j])
+//@ ensures[C10] result != nil ==> uavail(result) && member(pool, result)
+//@ ensures[C10] result == nil ==> noneavail(pool)
+//@ ensures[C10] result != nil ==> exists i int :: 0 <= i && i < len(pool) && pool[i] == result && forall j int :: 0 <= j && j < i ==> !uavail(pool[j])
+
+//@ func (r *RandomSelection) Select(pool UpstreamPool, cx *layer4.Connection) *Upstream
+//@ requires validpool(pool)
+//@ safety C10
+//@ assigns[C10] nothing
+//@ invariant count >= 0 && count <= rangeindex + 1
+//@ invariant randomHost != nil ==> uavail(randomHost) && member(pool, randomHost)
+//@ invariant count == 0 ==> forall j int :: 0 <= j && j <= rangeindex ==> !uavail(pool[j])
+//@ invariant count > 0 ==> randomHost != nil
+//@ ensures[C10] result != nil ==> uavail(result) && member(pool, result)
+//@ ensures[C10] result == nil ==> noneavail(pool)
+
+//@ func (sel *LeastConnSelection) Select(pool UpstreamPool, cx *layer4.Connection) *Upstream
+//@ requires validpool(pool)
+//@ safety C10
+//@ assigns[C10] nothing
+//@ invariant count >= 0 && count <= rangeindex + 1
+//@ invariant best != nil ==> uavail(best) && member(pool, best)
+//@ invariant leastConns == -1 ==> forall j int :: 0 <= j && j <= rangeindex ==> !uavail(pool[j])
+//@ invariant leastConns != -1 ==> best != nil
+//@ ensures[C10] result != nil ==> uavail(result) && member(pool, result)
+//@ ensures[C10] result == nil ==> noneavail(pool)
+
+// round_robin: only soundness is decided (what it returns is available and from the pool). That it
+// finds an available upstream whenever one exists rests on a covering argument over residues
+// modulo len(pool) that fails when the 32-bit counter wraps (known finding, see DESIGN.md) and
+// that the solvers cannot establish even where it holds.
+//@ func (r *RoundRobinSelection) Select(pool UpstreamPool, cx *layer4.Connection) *Upstream
+//@ requires validpool(pool)
+//@ safety C10
+//@ assigns[C10] r.robin
+//@ ensures[C10] result != nil ==> uavail(result) && member(pool, result)
+
+//@ pred validchoices(c []*Upstream) = forall t int :: 0 <= t && t < len(c) ==> c[t] == nil || validpeers(c[t])
+//@ pred allnil(c []*Upstream) = forall t int :: 0 <= t && t < len(c) ==> c[t] == nil
+
+// random_choose: the sample only ever holds available upstreams, and its first slot is filled as
+// soon as one available upstream has been seen (reservoir sampling over the available ones).
+//@ func (r *RandomChoiceSelection) Select(pool UpstreamPool, cx *layer4.Connection) *Upstream
+//@ requires validpool(pool) && r.Choose >= 2
+//@ safety C10
+//@ assigns[C10] nothing
+//@ invariant len(choices) == k && 0 <= k && (len(pool) > 0 ==> k > 0) && n >= 0 && n <= rangeindex + 1
+//@ invariant forall t int :: 0 <= t && t < len(choices) ==> choices[t] == nil || (uavail(choices[t]) && validpeers(choices[t]))
+//@ invariant n == 0 ==> forall j int :: 0 <= j && j <= rangeindex ==> !uavail(pool[j])
+//@ invariant n > 0 ==> choices[0] != nil
+//@ ensures[C10] result != nil ==> uavail(result)
+//@ ensures[C10] result == nil ==> noneavail(pool)
+
+//@ func hostByHashing(pool []*Upstream, s string) *Upstream
+//@ requires validpool(pool)
+//@ safety C10
+//@ assigns[C10] nothing
+//@ invariant upstream != nil ==> uavail(upstream) && member(pool, upstream)
+//@ invariant upstream == nil ==> forall j int :: 0 <= j && j <= rangeindex ==> !uavail(pool[j])
+//@ ensures[C10] result != nil ==> uavail(result) && member(pool, result)
+//@ ensures[C10] result == nil ==> noneavail(pool)
+
+//@ func hash(s string) uint32
+//@ pure
+
+//@ func (u *Upstream) String() string
+//@ pure
+
+//@ func (sel *IPHashSelection) Select(pool UpstreamPool, conn *layer4.Connection) *Upstream
+//@ requires validpool(pool) && conn != nil && conn.Conn != nil
+//@ safety C10
+//@ assigns[C10] nothing
+//@ ensures[C10] result != nil ==> uavail(result) && member(pool, result)
+//@ ensures[C10] result == nil ==> noneavail(pool)
+
+// leastConns: never panics, whatever the slice holds (nil slots included). That the result is one of
+// the non-nil entries, and nil only if there is none, is an assumed postcondition (the membership
+// invariant over the appended slice of pointers is beyond the solvers within the time limits).
+//@ func leastConns(upstreams []*Upstream) *Upstream
+//@ requires validchoices(upstreams)
+//@ safety C10
+//@ assigns[assumed] nothing
+//@ invariant validchoices(upstreams)
+//@ invariant cap(best) == 0 || fresh(best)
+//@ ensures[assumed] result != nil ==> member(upstreams, result)
+//@ ensures[assumed] result == nil ==> allnil(upstreams)
